@@ -200,16 +200,22 @@ def spelled(case: dict) -> dict:
     """the Python objects the decorator was given for period / ttl"""
     form = case.get("style", {}).get("form", "int")
     out = {k: rl.secs(case["p"][k], form) for k in ("period", "ttl") if case["p"].get(k) is not None}
-    if case.get("style", {}).get("callable") and case["kind"] != "breaker":
-        out["through"] = "a callable returning it"
+    if case["kind"] != "breaker":
+        dyn = [k for k in ("period", "ttl") if k in out and rl.is_callable(case.get("style", {}), k)]
+        if dyn:
+            out["through"] = "a callable of the call's arguments for " + " and ".join(dyn)
     return out
 
 
 def spelling_class(case: dict) -> list[str]:
     out = []
     sp = spelled(case)
-    via = "callable_returning_" if sp.pop("through", None) else ""
+    sp.pop("through", None)
+    dyn = [k for k in ("period", "ttl") if case["kind"] != "breaker" and rl.is_callable(case.get("style", {}), k)]
+    if case["kind"] == "fixed" and case["p"].get("ttl") is not None:
+        out.append("fixed: " + " + ".join(f"{'callable' if k in dyn else 'plain'} {k}" for k in ("period", "ttl")))
     for k, v in sp.items():
+        via = "callable_returning_" if k in dyn else ""
         name = type(v).__name__
         if name == "timedelta" and v.days:
             name += "_with_days"
@@ -264,6 +270,12 @@ def interesting_seq(case: dict, ev: dict) -> set[str]:
                 out.add("call rejected while open")
             if f.get("trip") == "T":
                 out.add("breaker tripped")
+            if o[1] == "fail" and int(f.get("total", 0)):
+                tot, fl = int(f["total"]), int(f["fails"])
+                if (fl * 100) % tot and abs(fl * 100 / tot - p["rate"]) < 1 and tot >= p["min_calls"]:
+                    out.add("trip rule decided on a share that is not a whole percent, less than one point from errors_rate")
+                    if f.get("trip") == "F" and round(fl * 100 / tot) >= p["rate"]:
+                        out.add("no trip although the share rounds onto errors_rate")
             if o[1] == "fail" and f.get("trip") == "F":
                 tot, fl = int(f["total"]), int(f["fails"])
                 if tot < p["min_calls"] and p["rate"] * tot <= 100 * fl:
@@ -380,6 +392,12 @@ def shrink_seq(case: dict, pred) -> dict:
             trial = dict(cur, style=dict(cur["style"], **{key: False}))
             if pred(trial):
                 cur = trial
+    if cur.get("style", {}).get("callable") in (True, "both"):
+        for one in ("period", "ttl"):
+            trial = dict(cur, style=dict(cur["style"], callable=one))
+            if pred(trial):
+                cur = trial
+                break
     return cur
 
 
@@ -630,7 +648,10 @@ def run(chk: Check) -> int:
                 "(period/ttl spelled as int, float, timedelta, '90s', '1d1m30s', '1d0h1m30s', ' 1D1M30S ', bare digits - period_ttl_spellings counts them by the Python type handed over; "
                 "30% of the cases with periods / ttls of 90 s .. 7 days, so that timedeltas have a non-zero `days` field and strings use the d/h/m units, with waits also aimed just past what is left of "
                 "the duration when one unit of its d/h/m/s decomposition is dropped or kept alone; the model gets ticks computed by the harness, never through cashews.ttl; "
-                "custom action or default error; purge task on or off (off for the long durations); 15% through the bare decorator); plus interleavings of 2-3 concurrent "
+                "custom action or default error; purge task on or off (off for the long durations); 15% through the bare decorator; for the two limiters 20% of the cases pass period and / or ttl as a callable of "
+                "the call's arguments in every combination - plain+plain, callable period, callable ttl, both (period_ttl_spellings `fixed: ...` rows) - and the callable checks the arguments it is given; "
+                "40% of the breaker histories put the trip rule on its edge: total <= 14 calls with `fails` failures inside one period, errors_rate drawn from 1..99 at floor / ceiling / nearest integer / +-1 of the exact "
+                "share 100*fails/total, min_calls = total so that exactly (total, fails) decides; the other breaker cases draw errors_rate from 1..99 half of the time); plus interleavings of 2-3 concurrent "
                 "callers at backend-command granularity with clock steps in between (exhaustive for the listed small programs, random schedules otherwise). "
                 "A case is non-trivial iff it reached at least one of the interesting states counted in interesting_states_cases; distinct = distinct (kind, params, calls) resp. (kind, params, executed step sequence)",
         "samples": samples,
